@@ -71,7 +71,7 @@ func (e *Eng) assign(st *State, lhs ast.Expr, v *Val) {
 			e.boundsCheck(st, idx.T, base.Elems[2].T, l, l.Pos())
 			e.elemWrite(st, bt.Elem(), base, idx.T, e.coerce(v, bt.Elem()))
 		case *types.Map:
-			if e.con != nil && e.con.NoPanic {
+			if e.ownPanicsChecked() {
 				e.oblige(st, "nopanic", "nil-map-write "+e.src(l), "(not (= "+base.T+" 0))", l.Pos())
 			}
 			e.mapWrite(st, bt, base.T, e.coerce(idx, bt.Key()), e.coerce(v, bt.Elem()))
@@ -107,14 +107,16 @@ func (e *Eng) coerce(v *Val, to types.Type) *Val {
 }
 
 func (e *Eng) nilCheck(st *State, base *Val, x ast.Expr, pos token.Pos) {
-	if e.con != nil && e.con.NoPanic && base.Sort == "Int" {
+	if e.ownPanicsChecked() && base.Sort == "Int" {
 		// receivers / params may carry requires non-nil
 		e.oblige(st, "nopanic", "nil-deref "+e.src(x), "(not (= "+base.T+" 0))", pos)
 	}
 }
 
+func (e *Eng) ownPanicsChecked() bool { return e.con != nil && (e.con.NoPanic || e.con.Safe) }
+
 func (e *Eng) boundsCheck(st *State, idx, ln string, x ast.Node, pos token.Pos) {
-	if e.con != nil && e.con.NoPanic {
+	if e.ownPanicsChecked() {
 		e.oblige(st, "nopanic", "index "+e.src(x), fmt.Sprintf("(and (<= 0 %s) (< %s %s))", idx, idx, ln), pos)
 	}
 }
@@ -159,8 +161,7 @@ func (e *Eng) heapRead(st *State, recv types.Type, field, ref string, ft types.T
 		e.assume(st, fmt.Sprintf("(and (>= %s 0) (>= %s 0))", v.Elems[1].T, v.Elems[2].T))
 		return v
 	case "Struct":
-		e.gap("read of struct-valued field %s abstracted", field)
-		return e.freshVal("fld", ft)
+		return e.heapReadComp(st, name, ref, ft)
 	}
 	es := sortOf(ft)
 	srt := "(Array Int " + es + ")"
@@ -174,6 +175,50 @@ func (e *Eng) heapRead(st *State, recv types.Type, field, ref string, ft types.T
 		} else {
 			e.assume(st, fmt.Sprintf("(>= %s 0)", r.T))
 		}
+	}
+	return r
+}
+
+// heapReadComp reads a (possibly composite) value stored under heap array family `name` at ref; the naming
+// of the component arrays mirrors heapWriteComp.
+func (e *Eng) heapReadComp(st *State, name, ref string, ft types.Type) *Val {
+	switch sortOf(ft) {
+	case "Struct":
+		stt := ft.Underlying().(*types.Struct)
+		v := &Val{Sort: "Struct", Go: ft}
+		for i := 0; i < stt.NumFields(); i++ {
+			v.Names = append(v.Names, stt.Field(i).Name())
+			v.Elems = append(v.Elems, e.heapReadComp(st, fmt.Sprintf("%s.%d", name, i), ref, stt.Field(i).Type()))
+		}
+		return v
+	case "Slice":
+		v := &Val{Sort: "Slice", Go: ft}
+		for i := 0; i < 3; i++ {
+			cur := e.heapSym(st, fmt.Sprintf("%s.%d", name, i), "(Array Int Int)")
+			v.Elems = append(v.Elems, scalar(fmt.Sprintf("(select %s %s)", cur, ref), "Int", nil))
+		}
+		e.assume(st, fmt.Sprintf("(and (>= %s 0) (>= %s 0) (>= %s 0) (=> (= %s 0) (= %s 0)))", v.Elems[0].T, v.Elems[1].T, v.Elems[2].T, v.Elems[0].T, v.Elems[2].T))
+		return v
+	}
+	es := sortOf(ft)
+	if es != "Int" && es != "Bool" && es != "Str" && es != "Iface" && es != "F64" {
+		es = "Int"
+	}
+	cur := e.heapSym(st, name, "(Array Int "+es+")")
+	r := scalar(fmt.Sprintf("(select %s %s)", cur, ref), es, ft)
+	switch es {
+	case "Int":
+		if b, ok := ft.Underlying().(*types.Basic); ok {
+			if lo, hi, ok := intRange(b); ok {
+				e.assume(st, fmt.Sprintf("(<= %s %s %s)", lo, r.T, hi))
+			}
+		} else {
+			e.assume(st, fmt.Sprintf("(>= %s 0)", r.T))
+		}
+	case "Iface":
+		e.assume(st, fmt.Sprintf("(iwf %s)", r.T))
+	case "Str":
+		e.assume(st, fmt.Sprintf("(and (>= (slen %s) 0) (<= (slen %s) MAXI64))", r.T, r.T))
 	}
 	return r
 }
@@ -357,7 +402,7 @@ func (e *Eng) eval(st *State, x ast.Expr) *Val {
 			return e.freshVal("ta", t)
 		}
 		tagOK := fmt.Sprintf("(= (itag %s) %d)", v.T, e.tagOf(t))
-		if e.con != nil && e.con.NoPanic {
+		if e.ownPanicsChecked() {
 			e.oblige(st, "nopanic", "type-assert "+e.src(x), tagOK, x.Pos())
 		} else {
 			e.assume(st, tagOK)
@@ -370,7 +415,9 @@ func (e *Eng) eval(st *State, x ast.Expr) *Val {
 		e.gap("deref %s abstracted", e.src(x))
 		return e.freshVal("deref", e.info.TypeOf(x))
 	case *ast.FuncLit:
-		return e.freshNonNil("closure", e.info.TypeOf(x))
+		v := e.freshNonNil("closure", e.info.TypeOf(x))
+		v.Lit = x
+		return v
 	}
 	e.gap("unsupported expr %T", x)
 	return e.freshVal("expr", e.info.TypeOf(x))
@@ -509,7 +556,7 @@ func (e *Eng) evalSlice(st *State, x *ast.SliceExpr) *Val {
 		if x.High != nil {
 			hi = e.eval(st, x.High).T
 		}
-		if e.con != nil && e.con.NoPanic {
+		if e.ownPanicsChecked() {
 			e.oblige(st, "nopanic", "slice "+e.src(x), fmt.Sprintf("(and (<= 0 %s) (<= %s %s) (<= %s (slen %s)))", lo, lo, hi, hi, base.T), x.Pos())
 		}
 		e.ensureSubstr()
@@ -519,7 +566,7 @@ func (e *Eng) evalSlice(st *State, x *ast.SliceExpr) *Val {
 		if x.High != nil {
 			hi = e.eval(st, x.High).T
 		}
-		if e.con != nil && e.con.NoPanic {
+		if e.ownPanicsChecked() {
 			// note: upper bound is cap, we conservatively use len (stronger)
 			e.oblige(st, "nopanic", "slice "+e.src(x), fmt.Sprintf("(and (<= 0 %s) (<= %s %s) (<= %s %s))", lo, lo, hi, hi, base.Elems[2].T), x.Pos())
 		}
